@@ -3,15 +3,36 @@
 (* Trace validation for dasp_rms::Rms and the dasp_signal::rms adaptor     *)
 (* (property C11), std and no_std builds.                                  *)
 (*                                                                         *)
-(* Header  {"ev":"reset","comp":"rms","cfg":{n,fmt,ch,via,build},...}      *)
-(*   via   "direct": next / next_squared / current / rms_reset             *)
-(*         "signal": sig_next / sig_next_squared (frames pulled from a     *)
-(*                   source signal by the adaptor; a.x = the frame pulled) *)
+(* Header  {"ev":"reset","comp":"rms",                                     *)
+(*          "cfg":{n,fmt,ch,via,build,store,src},...}                      *)
 (*   build "std" | "no_std" selects the square-root acceptance predicate.  *)
+(*   store  ring storage handed to Rms::new / .rms(): vec | box | slice    *)
+(*          (&mut [T]) | array ([T; n]); src = source signal of an adaptor *)
+(*          run (iter: dasp's from_iter; gen: a queue the driver fills).   *)
+(*          Neither changes what is demanded: every storage is the same    *)
+(*          window of N frames.                                            *)
+(* An execution owns a growing list of detector INSTANCES (`ins`); every   *)
+(* event names the one it acts on (a.i).  Instance 0 is built by the       *)
+(* header and is the bare detector (via "direct") or the adaptor (via      *)
+(* "signal").                                                              *)
+(*   bare detector: next / next_squared / current / rms_reset {i},         *)
+(*                  rms_clone {i, j}, rms_move {i}                         *)
+(*   adaptor:       sig_next / sig_next_squared {i, x} (frames pulled from *)
+(*                  the source signal; a.x = the frame pulled),            *)
+(*                  sig_clone {i, j}, sig_move {i}, sig_parts {i}          *)
+(*   clone: instance j (= the number of instances so far) starts with      *)
+(*     EXACTLY the abstract state of instance i -- window contents, sum    *)
+(*     and error budget (RmsClone); from then on the two are independent:  *)
+(*     an event changes the state of its own instance only, and every      *)
+(*     instance keeps being judged against its own history.                *)
+(*   move / parts: the instance is moved in memory (through a Box) / the   *)
+(*     adaptor is taken apart by into_parts and its detector goes on as    *)
+(*     the bare detector; the abstract state is untouched.                 *)
 (* A line is accepted iff every channel's output lies within the rigorous  *)
 (* bound of Rms.tla around the EXACT mean square of the last n frames      *)
-(* (layer 1, window zero-initialised, zeroed again by rms_reset), is       *)
-(* finite and not negative.  The error budget is part of the state.        *)
+(* its instance has seen (layer 1, window zero-initialised, zeroed again   *)
+(* by rms_reset), is finite and not negative.  The error budget is part of *)
+(* the state.                                                              *)
 (***************************************************************************)
 EXTENDS Rms, TLC, Json, IOUtils
 
@@ -19,11 +40,11 @@ Rec == ndJsonDeserialize(IOEnv.TRACE)
 
 VARIABLES l,      \* next line
           cf,     \* header of the current execution ([n |-> 0] when none)
-          chs,    \* per channel: [win, sum, bud]
+          ins,    \* instances: sequence of [st |-> per channel [win, sum, bud, ex], via |-> "direct" | "signal"]
           skip
-vars == << l, cf, chs, skip >>
+vars == << l, cf, ins, skip >>
 Ev == Rec[l]
-NoCfg == [n |-> 0, fmt |-> "f32", ch |-> 0, via |-> "direct", build |-> "std"]
+NoCfg == [n |-> 0, fmt |-> "f32", ch |-> 0, via |-> "direct", build |-> "std", store |-> "vec", src |-> "iter"]
 
 RmsFmts == {"f32", "f64", "i8", "i16", "i32", "u16", "i24", "i48", "i64", "u8", "u24", "u32", "u48", "u64"}
 FOf(c) == FmtOf(FloatOf(c.fmt))
@@ -41,46 +62,65 @@ RootsOK(c, st, r) == ValOK(c, r) /\ \A i \in 1..c.ch : AcceptRoot(c.build, FOf(c
 SqsOK(c, st, r)   == ValOK(c, r) /\ \A i \in 1..c.ch : AcceptSq(FOf(c), ConvSlack(c.fmt), st[i], r.v[i])
 
 Fresh(c) == [i \in 1..c.ch |-> TInit(c.n)]
+\* a clone carries the whole abstract state of its original (Rms.tla: RmsClone), channel by channel
+CloneOf(st) == [i \in DOMAIN st |-> RmsClone(st[i])]
 AcceptReset ==
   LET c == Ev.cfg IN
   /\ Ev.comp = "rms" /\ c.n >= 1 /\ c.ch >= 1 /\ c.fmt \in RmsFmts
   /\ c.via \in {"direct", "signal"} /\ c.build \in {"std", "no_std"}
+  /\ c.store \in {"vec", "box", "slice", "array"} /\ c.src \in {"iter", "gen"}
   /\ Ev.r.k = "unit" /\ Ev.o.ok
   /\ Ev.o.wf = c.n                                         \* window_frames()
   /\ RootsOK(c, Fresh(c), [k |-> "val", v |-> Ev.o.cur])   \* current() of a new detector
 
 Feeds == {"next", "next_squared", "sig_next", "sig_next_squared"}
-ViaOK == IF cf.via = "signal" THEN Ev.ev \in {"sig_next", "sig_next_squared"}
-         ELSE Ev.ev \in {"next", "next_squared", "current", "rms_reset"}
-\* state after the event
-After == IF Ev.ev \in Feeds THEN Push(cf, chs, Ev.a.x)
-         ELSE IF Ev.ev = "rms_reset" THEN Fresh(cf) ELSE chs
+\* the instance the event acts on
+IdxOK == Ev.a.i >= 0 /\ Ev.a.i < Len(ins)
+Me == ins[Ev.a.i + 1]
+ViaOK == IF Me.via = "signal" THEN Ev.ev \in {"sig_next", "sig_next_squared", "sig_clone", "sig_move", "sig_parts"}
+         ELSE Ev.ev \in {"next", "next_squared", "current", "rms_reset", "rms_clone", "rms_move"}
+IsClone == Ev.ev \in {"rms_clone", "sig_clone"}
+IsMove  == Ev.ev \in {"rms_move", "sig_move", "sig_parts"}
+\* state of the event's own instance after the event
+After == IF Ev.ev \in Feeds THEN Push(cf, Me.st, Ev.a.x)
+         ELSE IF Ev.ev = "rms_reset" THEN Fresh(cf) ELSE Me.st
 AcceptOp(aft) ==
-  /\ cf.n >= 1 /\ ViaOK
+  /\ cf.n >= 1 /\ IdxOK /\ ViaOK
   /\ (Ev.ev \in Feeds => FrameOK(cf, Ev.a.x))
   /\ CASE Ev.ev \in {"next", "sig_next", "current"}        -> RootsOK(cf, aft, Ev.r)
        [] Ev.ev \in {"next_squared", "sig_next_squared"}   -> SqsOK(cf, aft, Ev.r)
        [] Ev.ev = "rms_reset"                              -> Ev.r.k = "unit"
-HeapOK == Ev.h = << 0, 0, 0 >>
+       \* the new instance gets the next free index; a clone of the bare detector shows the original's window
+       \* length and current() straight away; a cloned adaptor over dasp's from_iter would replay the original's
+       \* remaining frames, so adaptors are cloned over the queue source only
+       [] IsClone -> /\ Ev.r.k = "unit" /\ Ev.a.j = Len(ins)
+                     /\ (Ev.ev = "sig_clone" => cf.src = "gen")
+                     /\ (Ev.ev = "rms_clone" => /\ Ev.o.ok /\ Ev.o.wf = cf.n
+                                                /\ RootsOK(cf, CloneOf(aft), [k |-> "val", v |-> Ev.o.cur]))
+       [] IsMove  -> Ev.r.k = "unit"
+\* clones and moves are not steady-state calls (a clone of a Vec-backed window allocates): no heap conjunct
+HeapOK == IsClone \/ IsMove \/ Ev.h = << 0, 0, 0 >>
 
 Consume == l <= Len(Rec) /\ l' = l + 1
 TReset ==
   /\ Consume /\ Ev.ev = "reset"
   /\ IF AcceptReset
-       THEN /\ cf' = Ev.cfg /\ chs' = Fresh(Ev.cfg) /\ skip' = FALSE
+       THEN /\ cf' = Ev.cfg /\ ins' = << [st |-> Fresh(Ev.cfg), via |-> Ev.cfg.via] >> /\ skip' = FALSE
        ELSE /\ PrintT(<< "REJECT", l, Ev.ev >>)
-            /\ skip' = TRUE /\ cf' = NoCfg /\ chs' = << >>
+            /\ skip' = TRUE /\ cf' = NoCfg /\ ins' = << >>
 TOp ==
   /\ Consume /\ Ev.ev # "reset" /\ ~skip
   /\ LET aft == After IN
      IF AcceptOp(aft)
-       THEN /\ chs' = aft /\ UNCHANGED << cf, skip >>
+       THEN /\ ins' = IF IsClone THEN Append(ins, [st |-> CloneOf(aft), via |-> Me.via])        \* the original is untouched
+                      ELSE [ins EXCEPT ![Ev.a.i + 1] = [st |-> aft, via |-> IF Ev.ev = "sig_parts" THEN "direct" ELSE Me.via]]
+            /\ UNCHANGED << cf, skip >>
             /\ (IF HeapOK THEN TRUE ELSE PrintT(<< "HEAP", l, Ev.ev >>))
        ELSE /\ PrintT(<< "REJECT", l, Ev.ev >>)
-            /\ skip' = TRUE /\ UNCHANGED << cf, chs >>
-TSkip == Consume /\ Ev.ev # "reset" /\ skip /\ UNCHANGED << cf, chs, skip >>
+            /\ skip' = TRUE /\ UNCHANGED << cf, ins >>
+TSkip == Consume /\ Ev.ev # "reset" /\ skip /\ UNCHANGED << cf, ins, skip >>
 
-TraceInit == l = 1 /\ cf = NoCfg /\ chs = << >> /\ skip = TRUE
+TraceInit == l = 1 /\ cf = NoCfg /\ ins = << >> /\ skip = TRUE
 TraceNext == TReset \/ TOp \/ TSkip
 TraceSpec == TraceInit /\ [][TraceNext]_vars
 
